@@ -26,6 +26,15 @@ type Puppet struct {
 	// TxProb is the probability that an event carries a transaction.
 	TxProb float64
 	events int
+	// LeaveAtEvent, if > 0: the puppet's event number LeaveAtEvent carries a
+	// (validly self-signed) request to leave the validator set; the puppet keeps
+	// creating events afterwards, which an honest leaver would not do.
+	LeaveAtEvent int
+}
+
+// Departed: the puppet's own view says it is no longer a validator.
+func (p *Puppet) Departed() bool {
+	return p.LeaveAtEvent > 0 && p.events > p.LeaveAtEvent && p.core.Validators().ByID[p.sn.ID] == nil
 }
 
 func (nw *Network) makePuppet(sn *SimNode) *Puppet {
@@ -128,7 +137,15 @@ func (p *Puppet) Step(h *SimNode) error {
 	} else {
 		sigs = p.core.SelfBlockSignatures()
 	}
-	ev := hg.NewEvent(txs, nil, sigs, []string{head, other}, keysPub(p.sn.Key), seq+1)
+	var itxs []hg.InternalTransaction
+	if p.LeaveAtEvent > 0 && p.events+1 == p.LeaveAtEvent {
+		itx := hg.NewInternalTransactionLeave(*p.sn.peer())
+		if err := itx.Sign(p.sn.Key); err == nil {
+			itxs = append(itxs, itx)
+			nw.Res.count("puppet_leave_requests", 1)
+		}
+	}
+	ev := hg.NewEvent(txs, itxs, sigs, []string{head, other}, keysPub(p.sn.Key), seq+1)
 	if p.Timestamp != nil {
 		ev.Body.Timestamp = p.Timestamp()
 	}
